@@ -110,8 +110,10 @@ def make_state(rng, seq, rig, u):
     regs[12] = rng.choice(PLACES48) if rng.random() < 0.8 else rng.randrange(65536)
     regs[14] = rng.choice([0x00, 0x3F, 0x40, 0x5B, 0x7F, 0x80, 0xBF, 0xC0, 0xFF])      # I: the refresh address page
     regs[13] = 0
-    regs[28] = 0
+    regs[28] = 1 if (b[0] == 0x76 and rng.random() < 0.5) else 0      # HALT: also from the already-halted state
     t = t_positions(rng, u) % u.frame + u.frame * rng.choice([0, 0, 1, 3])
+    if rng.random() < 0.05:
+        t += u.frame * (((1 << 32) // u.frame) + rng.randint(0, 3))      # beyond 2^32, same frame position
     if regs[26] and (b[0] == 0x76 or (b[0] == 0xED and b[1] in (0x57, 0x5F))) and (t + 60) % u.frame < 120:
         regs[26] = 0
     regs[25] = t
@@ -240,6 +242,27 @@ def run_slots(shard, spec):
             nt = check_case(shard, rig, u, addr, b, regs, patches, j, rp)
             shard.case(('slots', ci, j), nt, sample={'bytes': bytes(b[:4]).hex(), 'addr': addr, 'T': regs[25], 'machine': '128K' if rig.is128 else '48K'} if ci < 2 and j == 0 else None)
             shard.hist('machine', '128K/o7ffd=%d' % rig.o7ffd if rig.is128 else '48K')
+        if seq == (0x76,):
+            # HALT is the one instruction with a state of its own: every placement x {first execution, already halted}
+            # x every machine x frame positions with all eight wait phases
+            for pi, place in enumerate(PLACES48):
+                for halted in (0, 1):
+                    for ri, (rig, u) in enumerate(rigs):
+                        for tk in range(10):
+                            rng = shard.rng('halt', pi, halted, ri, tk)
+                            addr, b, regs, patches = make_state(rng, seq, rig, u)
+                            for a in [x for x in patches if (x - addr) & 0xFFFF < 6]:
+                                del patches[a]
+                            addr = place
+                            regs[24] = addr
+                            regs[28] = halted
+                            regs[26] = 0
+                            regs[25] = u.first + u.line * rng.randrange(192) + tk
+                            for i, x in enumerate(b):
+                                patches[(addr + i) & 0xFFFF] = x
+                            nt = check_case(shard, rig, u, addr, b, regs, patches, tk, {'part': 'halt', 'addr': addr, 'halted': halted, 'is128': rig.is128, 'o7ffd': rig.o7ffd, 'T': regs[25]})
+                            shard.case(('halt', pi, halted, ri, tk), nt)
+            shard.inc('observed:halt_directed_cases', len(PLACES48) * 2 * len(rigs) * 10)
         if shard.out_of_time():
             shard.inc('stopped_on_budget')
             shard.note_inconclusive('slot sweep stopped on its time budget')
